@@ -37,4 +37,11 @@ def IsLongestChain (is : List Instr) (k : Nat) (d : Nat) : Prop :=
   (∀ c, IsChain is c → chainCount is k c ≤ d) ∧
   ((∃ c, IsChain is c ∧ chainCount is k c = d) ∨ (is = [] ∧ d = 0))
 
+/-- the graph `g` *represents* the block `is`: its nodes are the instructions and its edge RELATION
+(multiplicities and order are irrelevant) is "next instruction on a shared qubit".  Every theorem
+about `path_fold` and gate depth needs only this, so it covers any construction that yields the same
+relation (with or without parallel edges). -/
+def Represents (is : List Instr) (g : Graph) : Prop :=
+  g.instrs = is ∧ ∀ a b, (a, b) ∈ g.edges ↔ NextOn is a b
+
 end QV.C29
